@@ -3,7 +3,7 @@
    [to_graphite] is the REPAIRED formatter (commit 3c4d6088); [to_graphite_old]
    the tree before it.  Float texts (%g, JSON) are oracle data carried by the
    store ([fval]); every theorem holds for arbitrary such texts. *)
-From V Require Import Export.Formats Proofs.FormatsProofs Proofs.JsonProofs.
+From V Require Import Export.Formats Proofs.FormatsProofs Proofs.FormatsInj Proofs.JsonProofs.
 Local Open Scope N_scope.
 
 (* [clean_of ch m l]: the byte ch occurs in neither the metric name, the
@@ -122,6 +122,100 @@ Theorem C22_one_record_each :
              exists m l, In m s /\ In l (m_lsets m) /\ In r (to_graphite c m l)).
 Proof. exact one_record_each. Qed.
 
+(* ---- strong form: records and label sets of one metric are in bijection ----
+   [metric_ok m]: the metric as the store keeps it - pairwise different key
+   names, one value per key in every label set, pairwise different label tuples.
+   [<fmt>_clean c m]: prefix/host/name/program/keys/values contain none of the
+   format's field separators, and the label values none of the characters that
+   formatLabels replaces ('.' for graphite and statsd, '-' for collectd).
+   Then (1) the record of a label set parses to its own path, value (and time),
+   (2) the path identifies the label set among the metric's label sets,
+   (3) every record of the metric has exactly one label set as its origin. *)
+Theorem C22_statsd_one_record_each :
+  forall c m, metric_ok m -> statsd_clean c m ->
+  (forall l, In l (m_lsets m) ->
+     parse_statsd (to_statsd c m l) = Some (statsd_path c m l, value_string (l_val l), statsd_type (m_kind m))) /\
+  (forall l1 l2, In l1 (m_lsets m) -> In l2 (m_lsets m) -> statsd_path c m l1 = statsd_path c m l2 -> l1 = l2) /\
+  (forall r, In r (map (to_statsd c m) (m_lsets m)) -> exists! l, In l (m_lsets m) /\ r = to_statsd c m l).
+Proof. exact statsd_bijection. Qed.
+
+Theorem C22_collectd_one_record_each :
+  forall c m, metric_ok m -> collectd_clean c m ->
+  (forall l, In l (m_lsets m) ->
+     parse_collectd (to_collectd c m l) =
+       Some (collectd_id c m l, fmt_Z (c_interval_s c), time_string (l_time l), value_string (l_val l))) /\
+  (forall l1 l2, In l1 (m_lsets m) -> In l2 (m_lsets m) -> collectd_id c m l1 = collectd_id c m l2 -> l1 = l2) /\
+  (forall r, In r (map (to_collectd c m) (m_lsets m)) -> exists! l, In l (m_lsets m) /\ r = to_collectd c m l).
+Proof. exact collectd_bijection. Qed.
+
+Theorem C22_varz_one_record_each :
+  forall c m, metric_ok m -> varz_clean c m ->
+  (forall l, In l (m_lsets m) ->
+     parse_varz (to_varz c m l) = Some (m_name m, varz_labels c m l, value_string (l_val l))) /\
+  (forall l1 l2, In l1 (m_lsets m) -> In l2 (m_lsets m) -> varz_labels c m l1 = varz_labels c m l2 -> l1 = l2) /\
+  (forall r, In r (map (to_varz c m) (m_lsets m)) -> exists! l, In l (m_lsets m) /\ r = to_varz c m l).
+Proof. exact varz_bijection. Qed.
+
+(* graphite: a record is a list of lines; its value line identifies the label
+   set, and every line of the record (buckets, count) is addressed under the
+   label set's own path *)
+Theorem C22_graphite_one_record_each :
+  forall c m, metric_ok m -> graphite_clean c m ->
+  (forall l, In l (m_lsets m) ->
+     In (graphite_value_line c m l) (to_graphite c m l) /\
+     parse_graphite (graphite_value_line c m l) =
+       Some (graphite_path c m l, value_string (l_val l), time_string (l_time l))) /\
+  (forall l1 l2, In l1 (m_lsets m) -> In l2 (m_lsets m) -> graphite_path c m l1 = graphite_path c m l2 -> l1 = l2) /\
+  (forall r, In r (map (graphite_value_line c m) (m_lsets m)) ->
+             exists! l, In l (m_lsets m) /\ r = graphite_value_line c m l) /\
+  (forall l line, In l (m_lsets m) -> In line (to_graphite c m l) ->
+     exists suffix v, line = graphite_line (graphite_path c m l ++ suffix) v (l_time l)).
+Proof. exact graphite_bijection. Qed.
+
+(* the core: formatLabels is injective on label lists with the same keys, up to
+   the replacement of separators (for ANY values); with separator-free values
+   it is injective outright *)
+Theorem C22_format_labels_injective :
+  forall name L1 L2 ksep sep rep,
+    rep <> sep -> map fst L1 = map fst L2 ->
+    format_labels name L1 ksep sep rep = format_labels name L2 ksep sep rep ->
+    map (fun kv => clean ksep sep rep (snd kv)) L1 = map (fun kv => clean ksep sep rep (snd kv)) L2.
+Proof. exact format_labels_inj. Qed.
+
+Theorem C22_format_labels_injective_clean :
+  forall name L1 L2 ksep sep rep,
+    rep <> sep -> map fst L1 = map fst L2 ->
+    (forall kv, In kv L1 \/ In kv L2 -> ~ In ksep (snd kv) /\ ~ In sep (snd kv)) ->
+    format_labels name L1 ksep sep rep = format_labels name L2 ksep sep rep -> L1 = L2.
+Proof. exact format_labels_inj_clean. Qed.
+
+(* FULL STATEMENT (false of the code): the same without the restriction on the
+   label values.  Sanitisation collision: label values a.b and a_b of one
+   well-formed metric get the same graphite path and the same statsd path, a-b
+   and a_b the same collectd identifier - which is why the property quantifies
+   over label values without the characters that separate fields. *)
+Definition w_col (v : bytes) (z : Z) : lset := {| l_vals := [v]; l_val := VInt z; l_time := 0; l_expiry := 0 |}.
+Definition w_colm (a b : bytes) : metric :=
+  {| m_name := [99]; m_prog := [112]; m_kind := KCounter; m_type := TInt; m_hidden := false; m_keys := [[107]];
+     m_lsets := [w_col a 1; w_col b 2]; m_source := []; m_ranges := []; m_limit := 0 |}.
+Theorem C22_sanitisation_collision_refuted :
+  exists c m l1 l2 m' l1' l2',
+    metric_ok m /\ In l1 (m_lsets m) /\ In l2 (m_lsets m) /\ l1 <> l2 /\
+    graphite_path c m l1 = graphite_path c m l2 /\ statsd_path c m l1 = statsd_path c m l2 /\
+    metric_ok m' /\ In l1' (m_lsets m') /\ In l2' (m_lsets m') /\ l1' <> l2' /\
+    collectd_id c m' l1' = collectd_id c m' l2'.
+Proof.
+  exists w_cfg, (w_colm [97; 46; 98] [97; 95; 98]), (w_col [97; 46; 98] 1), (w_col [97; 95; 98] 2),
+         (w_colm [97; 45; 98] [97; 95; 98]), (w_col [97; 45; 98] 1), (w_col [97; 95; 98] 2).
+  assert (OK : forall a b, a <> b -> metric_ok (w_colm a b)).
+  { intros a b Hab. split; [split|].
+    - cbn. constructor; [intros []|constructor].
+    - intros l [<-|[<-|[]]]; reflexivity.
+    - cbn. constructor; [intros [E|[]]; congruence|constructor; [intros []|constructor]]. }
+  repeat split; try (apply OK; discriminate); try (left; reflexivity); try (right; left; reflexivity);
+    try discriminate.
+Qed.
+
 (* JSON: whenever /json answers, the tree decodes to the same names, programs,
    kinds, types, keys, label sets, values and times, for every store whose
    data have their metric's type *)
@@ -156,6 +250,33 @@ Proof.
     try (intros k [<-|[]] H; cbn in H; intuition discriminate);
     intros H; cbn in H; intuition discriminate.
 Qed.
+Example C22_witness_strong_hypotheses :
+  metric_ok w_hist /\ graphite_clean w_cfg w_hist /\ statsd_clean w_cfg w_hist /\ collectd_clean w_cfg w_hist.
+Proof.
+  assert (In2 : forall (P : lset -> Prop), P w_la -> P w_lb -> forall l, In l (m_lsets w_hist) -> P l).
+  { intros P A B l [<-|[<-|[]]]; assumption. }
+  assert (Cl : forall ch, ch <> 108 -> ch <> 97 -> ch <> 116 -> ch <> 112 -> ch <> 99 -> ch <> 111 -> ch <> 100 ->
+                          ch <> 101 -> ch <> 98 -> forall l, In l (m_lsets w_hist) -> clean_of ch w_hist l).
+  { intros ch. intros. revert l H8. apply In2; unfold clean_of; repeat split;
+      try (intros k [<-|[]] Hin; cbn in Hin; intuition congruence); intros Hin; cbn in Hin; intuition congruence. }
+  assert (VF : forall ch, ch <> 97 -> ch <> 98 -> forall l, In l (m_lsets w_hist) -> vals_free ch l).
+  { intros ch Ha Hb. apply In2; intros v [<-|[]] Hin; cbn in Hin; intuition congruence. }
+  split; [|split; [|split]].
+  - split; [split|].
+    + cbn. constructor; [intros []|constructor].
+    + apply In2; reflexivity.
+    + cbn. constructor; [intros [E|[]]; discriminate|constructor; [intros []|constructor]].
+  - split; [intros []|]. intros l Hl. split; [apply Cl; (discriminate || exact Hl)|].
+    split; [apply VF; (discriminate || exact Hl)|].
+    revert l Hl. apply In2; cbn; intuition discriminate.
+  - split; [intros []|]. intros l Hl. split; [apply Cl; (discriminate || exact Hl)|].
+    split; [apply VF; (discriminate || exact Hl)|].
+    revert l Hl. apply In2; cbn; intuition discriminate.
+  - split; [cbn; intuition discriminate|]. split; [intros []|]. intros l Hl.
+    split; [apply Cl; (discriminate || exact Hl)|].
+    split; [apply VF; (discriminate || exact Hl)|].
+    revert l Hl. apply In2; cbn; intuition discriminate.
+Qed.
 Example C22_witness_graphite :
   to_graphite w_cfg w_hist w_lb =
   [ [112;46;108;97;116;46;99;111;100;101;46;98;46;98;105;110;95;49;32;48;32;49;55;48;48;48;48;48;48;48;49;10];
@@ -177,6 +298,13 @@ Print Assumptions C22_statsd_roundtrip.
 Print Assumptions C22_collectd_roundtrip.
 Print Assumptions C22_varz_roundtrip.
 Print Assumptions C22_one_record_each.
+Print Assumptions C22_statsd_one_record_each.
+Print Assumptions C22_collectd_one_record_each.
+Print Assumptions C22_varz_one_record_each.
+Print Assumptions C22_graphite_one_record_each.
+Print Assumptions C22_format_labels_injective.
+Print Assumptions C22_format_labels_injective_clean.
+Print Assumptions C22_sanitisation_collision_refuted.
 Print Assumptions C22_json_tree_roundtrip.
 Print Assumptions C22_json_fails_iff_nonfinite.
 Print Assumptions C22_json_nonfinite_refuted.
